@@ -115,6 +115,13 @@ func tree(e ast.Expr) any {
 		if id, ok := x.Fun.(*ast.Ident); ok && len(x.Args) == 1 {
 			return []any{"app", id.Name, tree(x.Args[0])}
 		}
+		if id, ok := x.Fun.(*ast.Ident); ok && len(x.Args) >= 2 {
+			args := []any{}
+			for _, a := range x.Args {
+				args = append(args, tree(a))
+			}
+			return []any{"appn", id.Name, args}
+		}
 		return atom("<call:" + text(x.Fun) + ">")
 	}
 	return atom("<" + fmt.Sprintf("%T", e) + ">")
